@@ -21,6 +21,9 @@ def run(run):
     runner.load_contracts()
     components.ast_functions(run, ['PEPit/block_partition.py::BlockPartition.get_block', 'PEPit/block_partition.py::BlockPartition.add_constraint'],
                              run.tier, rt_quick=15, rt_thorough=80)
+    # "block-smooth functions are constrained block by block": the class's conditions on the blocks, by contract-level execution (same obligations as C03 / C04)
+    from sym import run as symrun
+    symrun.class_formulas(run, only=['BlockSmoothConvexFunction'], prefix='C15')
     run.trust('pyvc AST engine + z3 5.1 / cvc5 1.0.3')
     run.assume('the module-level object null_point is the empty combination and is written by no statement (C12 inventory)')
     res_tasks = tasks(run)
@@ -33,4 +36,12 @@ def run(run):
 
 
 def replay(rec, path):
+    if rec.get('kind') == 'class-formula':
+        from sym import run as symrun
+        out = symrun.replay_formula(rec.get('signature', {}), rec.get('model'))
+        print(out)
+        if out.get('reproduced'):
+            print('VIOLATION property=C15 replay=%s' % path)
+            return 1
+        return 0
     return hc.replay_scenario(rec, 'C15', path)
